@@ -31,7 +31,7 @@ inductive KExpr where
   deriving Repr, Inhabited, DecidableEq
 
 inductive Cmp where
-  | lt | le | other
+  | lt | le | ne | other
   deriving DecidableEq, Repr, Inhabited
 
 /-- One `unsafe impl Key for T` block plus the surrounding facts about `T`. -/
@@ -221,6 +221,7 @@ inductive HashSiteKind where
   | binding     -- `let hash = …;`
   | call        -- a call of `hash_one` (or of hand-rolled hashing)
   | use         -- the hash argument of `from_hash`
+  | rehash      -- the closure handed to the table for re-hashing an entry when it is resized
   deriving DecidableEq, Repr, Inhabited
 
 inductive HashShape where
@@ -332,13 +333,69 @@ inductive AllocShape where
   | other (s : String)
   deriving DecidableEq, Repr, Inhabited
 
-/-- Numeric constants read from the source. -/
-structure Consts where
-  defaultStrings : Option Nat
-  defaultBytes : Option Nat
-  defaultLimitIsMax : Bool
-  retryBudget : Option Nat     -- iterations of the reservation loop in `try_inc_length`
-  growthFactor : Option Nat    -- `bucket_capacity * k`
+/-! ### Constructors and the `Capacity` / `MemoryLimits` builders -/
+
+/-- What a constructor hands to the full constructor in one argument position. -/
+inductive CArg where
+  | param                       -- the constructor's own parameter of that kind
+  | default                     -- `Capacity::default()` / `MemoryLimits::default()` / `S::default()`
+  | randomNew                   -- `RandomState::new()`
+  | other (s : String)
+  deriving DecidableEq, Repr, Inhabited
+
+inductive CtorName where
+  | new | withCapacity | withMemoryLimits | withCapacityAndMemoryLimits | withHasher | withCapacityAndHasher
+  | full | default
+  | other (s : String)
+  deriving DecidableEq, Repr, Inhabited
+
+/-- One constructor, resolved (through any chain of calls between constructors) down to the arguments the
+full constructor `with_capacity_memory_limits_and_hasher` receives. -/
+structure CtorSpec where
+  owner : Wrapper
+  name : CtorName
+  cap : CArg
+  lim : CArg
+  hasher : CArg
+  deriving DecidableEq, Repr, Inhabited
+
+/-- Where a value used by the full constructor comes from. -/
+inductive CSrc where
+  | capStrings | capBytes | limMax
+  | lit (n : Nat)
+  | other (s : String)
+  deriving DecidableEq, Repr, Inhabited
+
+/-- The full constructor: the arena is `Arena::new(arenaBytes, arenaMax)`, the table(s) and the string
+vector are pre-sized with `tablePresize`, the key counter (concurrent interner) starts at `keyStart`. -/
+structure FullCtor where
+  owner : Wrapper
+  arenaBytes : CSrc
+  arenaMax : CSrc
+  tablePresize : CSrc
+  keyStart : Option Nat
+  deriving DecidableEq, Repr, Inhabited
+
+/-- A field value produced by a builder. -/
+inductive CVal where
+  | param | lit (n : Nat) | usizeMax
+  | other (s : String)
+  deriving DecidableEq, Repr, Inhabited
+
+inductive BuilderName where
+  | new | forStrings | forBytes | minimal | default | forMemoryUsage
+  | other (s : String)
+  deriving DecidableEq, Repr, Inhabited
+
+structure CapBuilder where
+  name : BuilderName
+  strings : CVal
+  bytes : CVal
+  deriving DecidableEq, Repr, Inhabited
+
+structure LimBuilder where
+  name : BuilderName
+  max : CVal
   deriving DecidableEq, Repr, Inhabited
 
 end Lasso.Source
